@@ -109,6 +109,17 @@ func main() {
 				fmt.Printf("CLONE %s aliases=%v\n", core.FuncName(e), m.ResultAliases(e))
 			}
 		}
+		for _, e := range m.Entries {
+			if cs := m.ParamCaptures(e); len(cs) > 0 {
+				fmt.Printf("CAPTURE %s", core.FuncName(e))
+				for i, c := range cs {
+					if i < 4 {
+						fmt.Printf("  %s<-%s", c.Cell, c.Ref)
+					}
+				}
+				fmt.Println()
+			}
+		}
 		var ks []string
 		for k, n := range m.Unmodeled {
 			ks = append(ks, fmt.Sprintf("%s(%d)", k, n/m.Iter))
